@@ -158,8 +158,10 @@ func c04Predicate(c *Ctx, ge *GuardEngine, ctors map[string]string) {
 		return
 	}
 	atoms := ge.ReturnAtoms(fn, 0)
-	want := mustRe(pat("phi(({consensus.ElementAccumulator}.Trees[len({consensus.elementLeaf}.StateElement.MerkleProof)] == call (consensus.elementLeaf).proofRoot({consensus.elementLeaf}))|const:false)"))
-	ok := len(atoms) == 1 && want.MatchString(atoms[0])
+	leaf := "{consensus.elementLeaf}"
+	wantS := "phi(({consensus.ElementAccumulator}.Trees[len(" + leaf + ".StateElement.MerkleProof)] == call consensus.proofRoot(call (consensus.elementLeaf).hash(" + leaf + "), " + leaf + ".StateElement.LeafIndex, " + leaf + ".StateElement.MerkleProof))|const:false)"
+	want := mustRe(pat(wantS))
+	ok := len(atoms) == 1 && (want.MatchString(atoms[0]) || want.MatchString(ge.pv.ExpandAll(atoms[0], wantS)))
 	c.Check(ok, "membership-predicate", "root-equality", c.P.Pos(fn.Pos()), ifElse(ok, "true only if Trees[len(proof)] == proofRoot(leaf)", "containsLeaf returns "+joinShort(atoms)+" — not 'stored root at height len(proof) equals the proof root, else false'"))
 	gs := ge.Guards(fn, nil, nil, nil, 0, map[*ssa.Function]int{})
 	r := req("tree-exists", "", "call (consensus.ElementAccumulator).%ID%({consensus.ElementAccumulator}, len({consensus.elementLeaf}.StateElement.MerkleProof))", opF, "", "a tree must exist at the proof's height (otherwise a stale root slot could match)")
